@@ -26,7 +26,7 @@ def walk_no_nested(fn: ast.AST) -> Iterator[ast.AST]:
             continue
         first = False
         yield n
-        stack.extend(ast.iter_child_nodes(n))
+        stack.extend(reversed(list(ast.iter_child_nodes(n))))  # pre-order, source order
 
 
 def parents(root: ast.AST) -> Dict[ast.AST, ast.AST]:
